@@ -90,7 +90,7 @@ Ltac consts :=
     pkgTopMaxHeight, pkgVScalar, pageCornerWidth, pageCornerHeight, storedDataWedgeWidth,
     personShoulderFactor, personAR, c4AR, headRadiusFactor, bodyTopFactor,
     cloudWideX, cloudWideY, cloudWideW, cloudWideH, cloudTallX, cloudTallY, cloudTallW, cloudTallH,
-    cloudSqX, cloudSqY, cloudSqW, cloudSqH, cloudWideBoundary, cloudTallBoundary in *.
+    cloudSqX, cloudSqY, cloudSqW, cloudSqH, cloudWideBoundary, cloudTallBoundary, sqrt2f in *.
 
 Ltac ceil_facts :=
   repeat match goal with
@@ -298,21 +298,35 @@ Proof.
     ceil_facts; consts; inv_consts; split; lra.
 Qed.
 
+(* ---- circle ---- *)
+
+Lemma circle_fit :
+  forall w h px py, 0 <= w -> 0 <= h -> 0 <= px -> 0 <= py ->
+    let WH := fit Circle w h px py in
+    let b := inner Circle (fst WH) (snd WH) w h in
+    Contains (w + px - 2) (h + py - 2) b /\ Inside (fst WH) (snd WH) b.
+Proof.
+  intros w h px py Hw Hh Hpx Hpy. cbv zeta. unfold fit, inner; cbn [fst snd]. crunch.
+Qed.
+
 (* ---- all modelled shapes together ---- *)
 
 Theorem fit_contains_guarded :
   forall s w h px py, 0 <= w -> 0 <= h -> 0 <= px -> 0 <= py ->
     guard s w h px py = true ->
     let WH := fit s w h px py in
-    Contains (w + px) (h + py) (inner s (fst WH) (snd WH) w h).
+    Contains (w + px - loss s) (h + py - loss s) (inner s (fst WH) (snd WH) w h).
 Proof.
   intros s w h px py Hw Hh Hpx Hpy G.
-  destruct s;
+  assert (Z0 : forall cw ch b, Contains cw ch b -> Contains (cw - 0) (ch - 0) b)
+    by (unfold Contains; intros ? ? ? [? ?]; split; lra).
+  destruct s; cbv zeta; unfold loss; try apply Z0;
     try (refine (proj1 (fit_contains_exact _ _ w h px py Hw Hh Hpx Hpy)); reflexivity).
   - apply person_fit_guarded; assumption.
   - apply c4person_fit_guarded; assumption.
   - cbv zeta. unfold inner. rewrite (cloud_branch_eq_of_guard _ _ _ _ G).
     apply (cloud_fit_padded_aspect w h px py Hw Hh Hpx Hpy).
+  - apply (circle_fit w h px py Hw Hh Hpx Hpy).
 Qed.
 
 Theorem fit_inside :
@@ -326,7 +340,27 @@ Proof.
   - apply Inside_b. apply person_inside; assumption.
   - apply Inside_b. apply c4person_inside; assumption.
   - cbv zeta. destruct (fit_cloud_nonneg w h px py Hw Hh Hpx Hpy). apply cloud_inside_any; assumption.
+  - apply Inside_b. apply (circle_fit w h px py Hw Hh Hpx Hpy).
 Qed.
+
+(* the property's own wording: the CONTENT fits (padding at least the ceil loss) *)
+Theorem fit_contains_content :
+  forall s w h px py, 0 <= w -> 0 <= h -> loss s <= px -> loss s <= py ->
+    guard s w h px py = true ->
+    let WH := fit s w h px py in
+    Contains w h (inner s (fst WH) (snd WH) w h).
+Proof.
+  intros s w h px py Hw Hh Hpx Hpy G. cbv zeta.
+  assert (L : 0 <= loss s) by (destruct s; unfold loss; lra).
+  assert (P : 0 <= px) by lra. assert (P' : 0 <= py) by lra.
+  pose proof (fit_contains_guarded s w h px py Hw Hh P P' G) as C. cbv zeta in C.
+  unfold Contains in *. destruct C; split; lra.
+Qed.
+
+(* the circle really can lose a pixel: content 98x98, no padding, inner box 97x97 *)
+Lemma circle_zero_padding_refuted :
+  contains_b 0 98 98 (let WH := fit Circle 98 98 0 0 in inner Circle (fst WH) (snd WH) 98 98) = false.
+Proof. vm_compute. reflexivity. Qed.
 
 (* content (without padding) fits wherever content + padding fits *)
 Lemma contains_weaken w h px py b : 0 <= px -> 0 <= py -> Contains (w + px) (h + py) b -> Contains w h b.
@@ -336,3 +370,51 @@ Proof. unfold Contains. intros ? ? [? ?]; split; lra. Qed.
 Lemma trace_rect_on_border tol x y w h p :
   on_rect_border_b tol x y w h p = true -> on_rect_border_b tol x y w h (trace_rect p) = true.
 Proof. exact (fun H => H). Qed.
+
+(* ---- oval, relative to its trigonometric oracle ---- *)
+
+Lemma limit_ar_grows_integral (a b : Z) :
+  (0 <= a)%Z -> (0 <= b)%Z ->
+  let r := limit_ar (inject_Z a) (inject_Z b) ovalAR in
+  inject_Z a <= fst r /\ inject_Z b <= snd r.
+Proof.
+  intros Ha Hb. rewrite Zle_Qle in Ha, Hb. change (inject_Z 0) with 0 in *.
+  unfold limit_ar, ovalAR. cases; cbn [fst snd]; try (split; lra).
+  - split; [lra|]. unfold roundQ. destruct (Qlt_le_dec (inject_Z a / 3) 0).
+    + exfalso. revert q0. inv_consts. intros. lra.
+    + rewrite <- Zle_Qle.
+      assert (L : inject_Z b <= inject_Z a / 3 + (1 # 2)) by (revert q; inv_consts; intros; lra).
+      apply Qfloor_resp_le in L. rewrite Qfloor_Z in L. exact L.
+  - split; [|lra]. unfold roundQ. destruct (Qlt_le_dec (inject_Z b / 3) 0).
+    + exfalso. revert q1. inv_consts. intros. lra.
+    + assert (L : inject_Z a <= inject_Z b / 3 + (1 # 2)) by (revert q0; inv_consts; intros; lra).
+      rewrite <- Zle_Qle. apply Qfloor_resp_le in L. rewrite Qfloor_Z in L. exact L.
+Qed.
+
+Theorem oval_fit_partial :
+  forall c s cr sr w h px py, 0 <= w -> 0 <= h -> 0 <= px -> 0 <= py ->
+    H_unit_b c s = true ->
+    let WH := fit_oval c s w h px py in
+    H_radius_b cr sr (fst WH) (snd WH) = true ->
+    let b := inner_oval cr sr (fst WH) (snd WH) in
+    Contains ((w + px * c) * (1 - rho) - 2) ((h + py * s) * (1 - rho) - 2) b /\ Inside (fst WH) (snd WH) b.
+Proof.
+  intros c s cr sr w h px py Hw Hh Hpx Hpy HU. cbv zeta. unfold fit_oval.
+  unfold H_unit_b in HU. rewrite !andb_true_iff, !Qle_bool_iff in HU. destruct HU as [[[C0 C1] S0] S1].
+  assert (PC : 0 <= px * c) by (apply Qmult_le_0_compat; assumption).
+  assert (PS : 0 <= py * s) by (apply Qmult_le_0_compat; assumption).
+  set (pc := px * c) in *. set (ps := py * s) in *.
+  pose proof (ceil_ge (sqrt2f * (w + pc))) as A1. pose proof (ceil_ge (sqrt2f * (h + ps))) as B1.
+  unfold ceilQ in *.
+  assert (A0 : (0 <= Qceiling (sqrt2f * (w + pc)))%Z).
+  { rewrite Zle_Qle. change (inject_Z 0) with 0. unfold sqrt2f in *. lra. }
+  assert (B0 : (0 <= Qceiling (sqrt2f * (h + ps)))%Z).
+  { rewrite Zle_Qle. change (inject_Z 0) with 0. unfold sqrt2f in *. lra. }
+  destruct (limit_ar_grows_integral _ _ A0 B0) as [GW GH].
+  rewrite Zle_Qle in A0, B0. change (inject_Z 0) with 0 in A0, B0.
+  set (W := fst (limit_ar _ _ ovalAR)) in *. set (H := snd (limit_ar _ _ ovalAR)) in *.
+  intros HR. unfold H_radius_b in HR. rewrite !andb_true_iff, !Qle_bool_iff in HR.
+  destruct HR as [[[R1 R2] R3] R4].
+  unfold inner_oval, Contains, Inside, bx, by_, bw, bh; cbn [fst snd].
+  ceil_facts. unfold rho, sqrt2f in *. inv_consts. repeat split; lra.
+Qed.
